@@ -89,6 +89,9 @@ def k_monotonic(ctx, pairs):
         prev = (cur[0], cur[1], (d, m))
 
 
+_ALIVE = []
+
+
 def k_from_datetime(ctx, iso_us):
     """iso_us = microseconds since 1958-01-01 (exact integer)."""
     T = _cls()
@@ -102,6 +105,14 @@ def k_from_datetime(ctx, iso_us):
     ok, t = attempt(T.from_datetime, d)
     if not ctx.check("cds.from_datetime", ok, "raised", exc_sig(t) if not ok else "", case, error=repr(t)):
         return
+    # stamps built from earlier datetimes are still alive (start and end of a window): they keep their own values
+    for t0, seen0 in _ALIVE:
+        now0 = (t0.ccsds_days, t0.ms_of_day, bytes(t0.pack()), t0.as_datetime())
+        if not ctx.check("cds.from_datetime", now0 == seen0, "earlier_stamp_changed_by_a_later_from_datetime", era, case, read_then=repr(seen0), read_now=repr(now0)):
+            _ALIVE.clear()
+            break
+    _ALIVE.append((t, (t.ccsds_days, t.ms_of_day, bytes(t.pack()), t.as_datetime())))
+    del _ALIVE[:-3]
     got = (t.ccsds_days, t.ms_of_day)
     if whole == "whole_ms":
         ctx.check("cds.from_datetime", got == want, "day_or_ms_differs", f"{era}/{tod}/{'day' if got[0] != want[0] else 'ms'}", case, observed=got, expected=want)
